@@ -22,6 +22,7 @@ import (
 )
 
 var pids []peer.ID
+var negIDs []peer.ID
 
 func init() {
 	for i := 0; i < 200; i++ {
@@ -31,6 +32,7 @@ func init() {
 		}
 		pids = append(pids, peer.ID(b))
 	}
+	negIDs = pids[190:193]
 }
 
 var base = time.Date(2021, 1, 1, 0, 0, 0, 0, time.UTC)
@@ -118,7 +120,7 @@ func (s *source) release() {
 }
 
 type rop struct {
-	Op  string // get | list | results
+	Op  string // get | list | results | getneg (an ID remembered as absent)
 	Pid int
 }
 
@@ -141,7 +143,7 @@ func genOps(t *rapid.T, ns, readers int) [][]rop {
 	for r := range out {
 		n := rapid.IntRange(1, 5).Draw(t, "nops")
 		for i := 0; i < n; i++ {
-			out[r] = append(out[r], rop{Op: rapid.SampledFrom([]string{"get", "get", "list", "results"}).Draw(t, "rop"), Pid: rapid.IntRange(0, ns-1).Draw(t, "rpid")})
+			out[r] = append(out[r], rop{Op: rapid.SampledFrom([]string{"get", "get", "list", "results", "getneg"}).Draw(t, "rop"), Pid: rapid.IntRange(0, ns-1).Draw(t, "rpid")})
 		}
 	}
 	return out
@@ -150,7 +152,7 @@ func genOps(t *rapid.T, ns, readers int) [][]rop {
 func genCase(t *rapid.T) Case {
 	c := Case{NS: rapid.IntRange(2, 12).Draw(t, "ns")}
 	readers := rapid.IntRange(1, 8).Draw(t, "readers")
-	nr := rapid.IntRange(1, 3).Draw(t, "rounds")
+	nr := rapid.IntRange(1, 5).Draw(t, "rounds")
 	for i := 0; i < nr; i++ {
 		r := round{Writer: rapid.SampledFrom([]string{"refresh", "refresh", "missfetch", "auto"}).Draw(t, "writer")}
 		if rapid.IntRange(0, 2).Draw(t, "bumpall") > 0 {
@@ -220,6 +222,11 @@ func runCase(t *testing.T) func(Case) pbt.Result {
 					last[r][p] = v
 				}
 				switch op.Op {
+				case "getneg":
+					pi, err := pc.Get(ctx, negIDs[op.Pid%len(negIDs)])
+					if err != nil || pi != nil {
+						fail(fmt.Sprintf("reader %d %s: Get(ID remembered as absent) = %v, %v", r, phase, pi, err))
+					}
 				case "get":
 					pi, err := pc.Get(ctx, pids[op.Pid])
 					if err != nil || pi == nil {
@@ -275,6 +282,13 @@ func runCase(t *testing.T) func(Case) pbt.Result {
 				if res.Fail != "" {
 					break
 				}
+				// (re-)establish the negative entries: the sources are asked and do not know these IDs
+				for _, id := range negIDs {
+					if pi, err := pc.Get(ctx, id); err != nil || pi != nil {
+						fail(fmt.Sprintf("Get(unknown ID) = %v, %v", pi, err))
+					}
+				}
+				synctest.Wait()
 				// update the source
 				ver++
 				src.mu.Lock()
@@ -401,7 +415,7 @@ func runCase(t *testing.T) func(Case) pbt.Result {
 
 func TestC07_Bubble(t *testing.T) {
 	pbt.Run(t, pbt.Config{Prop: "C07", Unit: "TestC07_Bubble", TrackCurrent: true,
-		Rule: "cache preloaded with 2..12 stable providers; 1..3 rounds: the source advances versions of a drawn subset (or all: main-map rebuild) and adds 0..2 new providers, a writer (explicit Refresh, miss-fetch of an uncached ID, or the automatic refresh triggered by lookups after the refresh interval elapsed on the virtual clock) is parked inside the source call, optionally a Get of another uncached ID is queued behind it, then 1..8 readers run drawn sequences of Get / List / GetResults on the stable providers while the writer is parked and again after it is released; oracle: at exact quiescence (synctest.Wait, no timeout) no reader of a cached provider is blocked; per reader and provider the observed version never decreases; stable providers are never nil / missing from List; records are never torn; the writer and the queued miss finish once the source answers; after a completed refresh the source's versions are visible; 4 concurrent lookups after the interval cause exactly one FetchAll round. Non-trivial: reader calls overlapped a parked writer; distinct by case.",
+		Rule: "cache preloaded with 2..12 stable providers; 1..5 rounds: the source advances versions of a drawn subset (or all: main-map rebuild) and adds 0..2 new providers, a writer (explicit Refresh, miss-fetch of an uncached ID, or the automatic refresh triggered by lookups after the refresh interval elapsed on the virtual clock) is parked inside the source call, optionally a Get of another uncached ID is queued behind it, then 1..8 readers run drawn sequences of Get / List / GetResults on the stable providers and Get of IDs remembered as absent (negative entries, re-established before each round) while the writer is parked and again after it is released; oracle: at exact quiescence (synctest.Wait, no timeout) no reader of a cached provider is blocked; per reader and provider the observed version never decreases; stable providers are never nil / missing from List; records are never torn; the writer and the queued miss finish once the source answers; after a completed refresh the source's versions are visible; 4 concurrent lookups after the interval cause exactly one FetchAll round. Non-trivial: reader calls overlapped a parked writer; distinct by case.",
 		Assumptions: []string{"a Get of an ID that is not cached is allowed to wait for the writer"},
 	}, genCase, runCase(t))
 }
